@@ -494,3 +494,79 @@ def c03_transition(ctx: Ctx) -> List[Violation]:
             if drops[s.request.id] != 1:
                 out.append(Violation("C03", "diverted", (pn, instr_kind(ctx, vid)), f"vehicle {vid} carrying {s.request.id} mid-route became {pn}"))
     return out
+
+
+# ---------------------------------------------------------------------------------------------------
+# C04 -- energy physical and accounted for (per transition, per vehicle)
+
+
+def _cap(m) -> float:
+    return m.tank_capacity_gallons if m.__class__.__name__ == "ICE" else m.battery_capacity_kwh
+
+
+def _idle_rate(m) -> float:
+    return m.idle_gallons_per_hour if m.__class__.__name__ == "ICE" else m.idle_kwh_per_hour
+
+
+def c04_transition(ctx: Ctx) -> List[Violation]:
+    out: List[Violation] = []
+    dt = ctx.pre.sim_timestep_duration_seconds
+    moves = {}
+    for r in ctx.of_type("VEHICLE_MOVE_EVENT"):
+        moves.setdefault(r["vehicle_id"], []).append(r)
+    charges = {}
+    for r in ctx.of_type("VEHICLE_CHARGE_EVENT"):
+        charges.setdefault(r["vehicle_id"], []).append(r)
+    for vid, b in ctx.post.vehicles.items():
+        a = ctx.pre.vehicles.get(vid)
+        if a is None:
+            continue
+        m = ctx.env.mechatronics[a.mechatronics_id]
+        cls = m.__class__.__name__
+        (et,) = tuple(a.energy.keys())
+        l0, l1 = a.energy[et], b.energy[et]
+        dg = b.energy_gained[et] - a.energy_gained[et]
+        dx = b.energy_expended[et] - a.energy_expended[et]
+        pa, pb = sname(a), sname(b)
+        if l1 < -1e-12 or l1 > _cap(m) + 1e-9:
+            out.append(Violation("C04", "range", (cls, pb), f"vehicle {vid}: level {l1} outside [0, {_cap(m)}]"))
+        if abs((l1 - l0) - (dg - dx)) > 1e-9:
+            out.append(Violation("C04", "ledger", (cls, pa, pb), f"vehicle {vid}: level changed by {l1 - l0}, gained {dg}, expended {dx}"))
+        if dg < -1e-12 or dx < -1e-12:
+            out.append(Violation("C04", "ledger_negative", (cls,), f"vehicle {vid}: accumulator decreased"))
+        moved = b.geoid != a.geoid or b.distance_traveled_km > a.distance_traveled_km + 1e-12
+        if moved:
+            ctx.cov[f"c04:moved:{cls}"] += 1
+            if l0 > 0 and not dx > 0:
+                out.append(Violation("C04", "not_lowered", (cls, "move"), f"vehicle {vid} moved {b.distance_traveled_km - a.distance_traveled_km:.4f} km and expended nothing (level {l0} -> {l1})"))
+            if l0 <= 0:
+                out.append(Violation("C04", "moved_from_empty", (cls,), f"vehicle {vid} moved with an empty store"))
+            if l1 <= 0 and vid not in charges:
+                out.append(Violation("C04", "moved_on_empty", (cls, pb), f"vehicle {vid} moved on and ended the step with level {l1} instead of stopping out of service"))
+        elif pa == pb and pa in ("Idle", "ChargeQueueing") and vid not in ctx.instructed():
+            if _idle_rate(m) > 0 and l0 > 0:
+                ctx.cov[f"c04:idled:{cls}:{pa}"] += 1
+                if not l1 < l0:
+                    out.append(Violation("C04", "not_lowered", (cls, pa), f"vehicle {vid} idled {dt} s in {pa} and its level stayed {l1}"))
+        if pb == "OutOfService" and pa != "OutOfService" and instr_kind(ctx, vid) != "OutOfServiceInstruction":
+            if pa in TRAVEL:
+                ctx.cov[f"c04:ran_dry:{cls}:{pa}"] += 1
+                if moved:
+                    out.append(Violation("C04", "moved_without_energy", (cls, pa), f"vehicle {vid} went out of service for lack of energy but moved"))
+        if vid in charges:
+            ctx.cov[f"c04:charged:{cls}:{pb}"] += 1
+            tot = sum(float(r["energy"]) for r in charges[vid])
+            if l1 < l0 - 1e-12:
+                out.append(Violation("C04", "charge_lowered", (cls,), f"vehicle {vid}: level fell {l0} -> {l1} in a charging step"))
+            for r in charges[vid]:
+                st = ctx.pre.stations.get(r["station_id"])
+                cs = st.state.get(r["charger_id"]) if st is not None else None
+                if cs is not None:
+                    lim = cs.charger.rate * dt / 3600.0 if cs.charger.energy_type.name == "ELECTRIC" else cs.charger.rate * dt
+                    if float(r["energy"]) > lim + 1e-9:
+                        out.append(Violation("C04", "exceeds_plug", (cls, r["charger_id"]), f"vehicle {vid}: {r['charger_id']} added {float(r['energy']):.6f} in {dt} s, the plug delivers at most {lim:.6f}"))
+            if abs(tot - dg) > 1e-9:
+                out.append(Violation("C04", "gain_booked", (cls,), f"vehicle {vid}: charge events {tot}, gained {dg}"))
+        elif dg > 1e-12:
+            out.append(Violation("C04", "gain_without_charge_event", (cls, pb), f"vehicle {vid} gained {dg} without a charge event"))
+    return out
